@@ -56,7 +56,7 @@ Fixpoint nodup_b (l : list nat) : bool :=
   end.
 
 (* ---------------------------------------------------------------- exceptions as values *)
-Inductive exn := ValueError | KeyError | IndexError | OutOfFuel | OtherError.
+Inductive exn := ValueError | KeyError | IndexError | OutOfFuel | OtherError | Unmodelled.
 Inductive res (A : Type) := Ok (a : A) | Raise (e : exn).
 Arguments Ok {A} a.
 Arguments Raise {A} e.
@@ -69,7 +69,7 @@ Definition is_ok {A} (x : res A) : bool := match x with Ok _ => true | Raise _ =
 Definition exn_eqb (a b : exn) : bool :=
   match a, b with
   | ValueError, ValueError | KeyError, KeyError | IndexError, IndexError
-  | OutOfFuel, OutOfFuel | OtherError, OtherError => true
+  | OutOfFuel, OutOfFuel | OtherError, OtherError | Unmodelled, Unmodelled => true
   | _, _ => false
   end.
 
@@ -106,10 +106,12 @@ Definition wf_b (h : heap) (g : graph) : bool :=
 (* p is a parent of c *)
 Definition edge (h : heap) (c p : ref) : Prop := In p (pars h c).
 
-(* reach h a b : b is an ancestor-or-self of a (follow parent links from a) *)
-Inductive reach (h : heap) : ref -> ref -> Prop :=
-| reach_refl : forall a, reach h a a
-| reach_step : forall a p b, edge h a p -> reach h p b -> reach h a b.
+(* reachP par a b : b is reached from a by following `par` links (b is an ancestor-or-self of a) *)
+Inductive reachP (par : ref -> list ref) : ref -> ref -> Prop :=
+| reach_refl : forall a, reachP par a a
+| reach_step : forall a p b, In p (par a) -> reachP par p b -> reachP par a b.
+
+Definition reach (h : heap) : ref -> ref -> Prop := reachP (pars h).
 
 (* a cycle is reachable from r *)
 Definition on_cycle (h : heap) (x : ref) : Prop := exists p, edge h x p /\ reach h p x.
